@@ -176,6 +176,9 @@ func runVer(toks []string) (string, string) {
 	if pd != "none" {
 		fields = append(fields, [2]string{"WARC-Payload-Digest", pd})
 	}
+	if len(block)%3 == 0 { // what a record says about truncation does not excuse a wrong length or digest
+		fields = append(fields, [2]string{"WARC-Truncated", []string{"length", "time", "disconnect", "unspecified"}[len(block)%4]})
+	}
 	payload := block
 	if kind == "h" {
 		payload = block[strings.Index(block, "\r\n\r\n")+4:]
